@@ -21,6 +21,7 @@ QStep(st, e, t) ==
       [] e.e = "sync_stop" -> Fin(st, e, SyncStop(st))
       [] e.e = "pdo_start" -> StartLike(st, e, PdoStart(st, e.period_us))
       [] e.e = "pdo_stop" -> Fin(st, e, PdoStop(st))
+      [] e.e = "pdo_cob" -> Fin(st, e, PdoSetCob(st, e.id))
       [] e.e = "pdo_set" -> Fin(st, e, PdoSetData(st, e.d))
       [] e.e = "hb_start" -> Fin(st, e, HbStart(st, e.ms))
       [] e.e = "hb_stop" -> Fin(st, e, HbStop(st))
